@@ -53,4 +53,12 @@ def select (isfile : Bytes → Bool) (names : Tmd.ChunkRecord → Bytes × Bytes
   records.filterMap fun r => (chooseFile isfile (names r).1 (names r).2).map fun f => (r, f)
 
 end Cdn
+
+namespace SdTitle
+
+/-- the content loop of `SDTitleReader`: `<id>.app` missing -> `continue`, else the record is appended -/
+def select (isfile : Bytes → Bool) (name : Tmd.ChunkRecord → Bytes) (records : List Tmd.ChunkRecord) : List Tmd.ChunkRecord :=
+  records.foldl (fun acc r => if !isfile (name r) then acc else acc ++ [r]) []
+
+end SdTitle
 end Pyctr
